@@ -29,6 +29,126 @@ func runC12(c *Ctx) {
 		c.info("C12-R7", "provider-packages#no-direct-runtime-integer-bounds", token.NoPos, "no integer parameter of an exported provider method reaches an index, slice bound or make size directly")
 	}
 	bndParamSources = false
+	// a constant index into a slice whose length nothing establishes: messages[0] of a list the caller may leave empty
+	{
+		n := 0
+		for _, rel := range providerPkgs {
+			for _, fn := range c.srcFuncs(rel) {
+				k := 0
+				eachInstr(fn, func(b *ssa.BasicBlock, _ int, ins ssa.Instruction) {
+					var seq, idx ssa.Value
+					switch y := ins.(type) {
+					case *ssa.IndexAddr:
+						seq, idx = y.X, y.Index
+					case *ssa.Index:
+						seq, idx = y.X, y.Index
+					default:
+						return
+					}
+					if _, isSlice := seq.Type().Underlying().(*types.Slice); !isSlice {
+						return
+					}
+					kv, isK := constInt(idx)
+					if !isK {
+						return
+					}
+					// slices of arrays, makes of a known size and the never-empty results of strings.Split are not at stake
+					exempt := false
+					derivesFrom(seq, func(x ssa.Value) bool {
+						switch y := x.(type) {
+						case *ssa.Slice:
+							if _, isArr := derefPtr(y.X.Type()).Underlying().(*types.Array); isArr {
+								exempt = true
+							}
+						case *ssa.MakeSlice:
+							if l, ok := constInt(y.Len); ok && l > kv {
+								exempt = true
+							}
+						case *ssa.Call:
+							if nm := callName(y); (nm == "strings.Split" || nm == "strings.SplitN") && kv == 0 {
+								exempt = true
+							}
+						}
+						return false
+					})
+					if exempt {
+						return
+					}
+					n++
+					k++
+					isFields := derivesFrom(seq, func(x ssa.Value) bool {
+						cl, ok := x.(*ssa.Call)
+						return ok && callName(cl) == "strings.Fields"
+					})
+					q := &pathQuery{fn: fn, target: func(x ssa.Instruction) bool { return x == ins }, cutEdge: func(bb *ssa.BasicBlock, si int) bool {
+						iff := ifOf(bb)
+						if iff == nil {
+							return false
+						}
+						// the first field of a text that matched the sanitiser's pattern (anchored, begins with a word
+						// character: C13-R3) exists
+						if isFields && kv == 0 {
+							cond := iff.Cond
+							truth := si == 0
+							if u, ok := cond.(*ssa.UnOp); ok && u.Op == token.NOT {
+								cond, truth = u.X, !truth
+							}
+							if cl, ok := cond.(*ssa.Call); ok && truth && callName(cl) == "regexp.Regexp.MatchString" {
+								return true
+							}
+						}
+						bo, ok := iff.Cond.(*ssa.BinOp)
+						if !ok {
+							return false
+						}
+						var cst int64
+						var lenSide ssa.Value
+						op := bo.Op
+						if cv, ok := constInt(bo.Y); ok {
+							cst, lenSide = cv, bo.X
+						} else if cv, ok := constInt(bo.X); ok {
+							cst, lenSide = cv, bo.Y
+							switch op { // mirror: c op len  ->  len op' c
+							case token.LSS:
+								op = token.GTR
+							case token.LEQ:
+								op = token.GEQ
+							case token.GTR:
+								op = token.LSS
+							case token.GEQ:
+								op = token.LEQ
+							}
+						} else {
+							return false
+						}
+						la := lenArg(lenSide)
+						if la == nil || !sameSeq(la, seq) {
+							return false
+						}
+						t := si == 0
+						switch op {
+						case token.LSS: // len < c false  ->  len >= c
+							return !t && cst > kv
+						case token.LEQ: // len <= c false ->  len > c
+							return !t && cst >= kv
+						case token.GEQ:
+							return t && cst > kv
+						case token.GTR:
+							return t && cst >= kv
+						case token.EQL:
+							return (t && cst > kv) || (!t && cst == 0 && kv == 0)
+						case token.NEQ:
+							return (!t && cst > kv) || (t && cst == 0 && kv == 0)
+						}
+						return false
+					}}
+					hit, path := q.fromEntry()
+					c.ob("C12-R7", fnKey(fn)+"#constant-index-within-length-"+itoa(k), ins.Pos(), hit == nil, "element "+itoa(int(kv))+" of a slice is read on a path with no test of its length: a list the GlyphLang caller left empty, null or wrongly shaped (`messages: input.messages` with the field absent) panics the provider call instead of returning an error", c.blockPath(path)...)
+				})
+			}
+		}
+		c.Sites["C12-R7#constant-indexes"] = n
+	}
 	// ---- R1 single reflective gate
 	c.rule("C12-R1", "WCS: reflect.Value.MethodByName / Method / Call / CallSlice are used in pkg/interpreter only inside CallMethod and HasMethod, and HasMethod never calls; no other package of the provider path performs reflective calls on GlyphLang-supplied names")
 	reflCalls := map[string]bool{"reflect.Value.MethodByName": true, "reflect.Value.Method": true, "reflect.Value.Call": true, "reflect.Value.CallSlice": true}
